@@ -32,6 +32,9 @@ func isDiagLine(l string) bool {
 	case "warn", "warning", "error", "alert", "fatal":
 		return true
 	}
+	if strings.HasPrefix(ll.Msg, "[pass1] Case ") || strings.HasPrefix(ll.Msg, "[pass1] Processing ") {
+		return false // progress lines of the branch handler; they quote label names and say "requires Pass 2 resolution"
+	}
 	low := strings.ToLower(ll.Msg)
 	for _, w := range diagWords {
 		if strings.Contains(low, w) {
